@@ -6,6 +6,7 @@ import numpy as np
 from ..core import guarded
 from ..gens import spectra as gs
 from ..monitors import spectrum as ms
+from ..monitors import history as hist
 from ..oracles import spectral as osp
 
 PROPERTY = "C01"
@@ -178,6 +179,14 @@ def judge_sequence(ctx, c, rng):
     read()
 
 
+def history_io(c):
+    reads = hist.reads_from(c, banded=("m0", "m1", "m2", "hm0", "tm01", "tm02", "mean_squared_slope"),
+                            plain=("significant_waveheight", "mean_period", "zero_crossing_period"),
+                            calls=(("frequency_moment(3)", lambda s: s.frequency_moment(3)),
+                                   ("frequency_moment(-1)", lambda s: s.frequency_moment(-1))))
+    return reads, hist.spectrum_mods(c, with_depth=True)
+
+
 def run_shard(ctx, shard):
     if shard.get("repo_tests"):
         from ..core import run_repo_tests_under_contracts
@@ -192,6 +201,8 @@ def run_shard(ctx, shard):
         judge(ctx, c, np.random.default_rng(c["_sub"]))
         if i % 3 == 0:
             judge_sequence(ctx, c, np.random.default_rng(c["_sub"] + 1))
+        if i % 3 == 1:
+            hist.judge_history(ctx, "C01", c, np.random.default_rng(c["_sub"] + 2), *history_io(c))
 
 
 def replay(ctx, case):
@@ -200,7 +211,9 @@ def replay(ctx, case):
         ms.call_case(case)
     else:
         g = case["gen"]
-        if case.get("sequence"):
+        if "history" in case:
+            hist.run_history(ctx, "C01", g, case["history"], *history_io(g))
+        elif case.get("sequence"):
             judge_sequence(ctx, g, np.random.default_rng(int(g["_sub"]) + 1))
         else:
             judge(ctx, g, np.random.default_rng(int(g["_sub"])))
